@@ -315,6 +315,9 @@ extern void hwloc_topology_clear(struct hwloc_topology *topology);
 #define _HWLOC_RECONNECT_FLAG_KEEPSTRUCTURE (1UL<<0)
 extern int hwloc__reconnect(struct hwloc_topology *topology, unsigned long flags);
 
+/* Recompute total memory, symmetric subtrees and group depths after Groups were inserted in a loaded topology. */
+extern void hwloc__update_after_new_groups(struct hwloc_topology *topology);
+
 /* insert memory object as memory child of normal parent */
 extern struct hwloc_obj * hwloc__attach_memory_object(struct hwloc_topology *topology, hwloc_obj_t parent,
                                                       hwloc_obj_t obj, const char *reason);
